@@ -494,7 +494,9 @@ def _edited_save(model, expected: dict, cfg: dict, sandbox: str, torch_2_5, rec:
             return []
         k, v = cands[0]
         arr = np.asarray(v.const_value.numpy(), dtype=np.float32).copy()
-        arr = arr + 1.5
+        with np.errstate(all="ignore"):
+            arr = arr + 1.5
+        arr = np.nan_to_num(arr, nan=7.25, posinf=3.5, neginf=-3.5)
         v.const_value = ir.tensor(arr, name=v.const_value.name)
         expected[(tag, k)] = arr.tobytes()
     elif edit == "add_init":
